@@ -283,6 +283,21 @@ class Origin:
 
 # ------------------------------------------------------------------ the proxy under test
 
+_ALL_PROXIES = []
+
+
+def _stop_all_proxies():
+    for p in list(_ALL_PROXIES):
+        try:
+            p.stop(keep=True)
+        except Exception:
+            pass
+
+
+import atexit
+atexit.register(_stop_all_proxies)
+
+
 class Proxy:
     def __init__(self, cfg, name='p'):
         self.cfg = cfg
@@ -293,6 +308,7 @@ class Proxy:
         json.dump(cfg, open(self.cfg_path, 'w'), indent=1)  # JSON is YAML
         self.proc = None
         self.logf = None
+        _ALL_PROXIES.append(self)
 
     def test_mode(self, timeout=20):
         """runs `--test x`; returns (returncode, output)"""
